@@ -214,6 +214,7 @@ ToInt(v) ==
       [] v[1] = "f" -> MkI(FTrunc(v))
       [] v[1] = "s" -> IF IsSignedInt(v[2]) THEN MkI(SignedIntVal(v[2])) ELSE Err
       [] v[1] = "b" -> MkI(IF v[2] THEN 1 ELSE 0)
+      [] v[1] = "d" -> AnyOf("i")       \* not decided: the function converts to nanoseconds, its signature does not list durations
       [] OTHER -> Err
 ToFloat(v) ==
     CASE IsAny(v) -> AnyOf("f")
@@ -249,6 +250,8 @@ Pure(name, a) ==
       [] name = "string" -> IF Len(a) = 1 THEN ToStr(a[1]) ELSE Err
       [] name = "duration" ->
             IF AllTags(a, <<"d">>) THEN a[1]
+            ELSE IF AllTags(a, <<"s">>)          \* not decided (parsed by the function, not listed in its signature) unless it cannot be a duration
+                 THEN (IF ~IsAny(a[1]) /\ ~\E i \in DOMAIN a[1][2] : IsDigit(a[1][2][i]) THEN Err ELSE AnyOf("d"))
             ELSE IF AllTags(a, <<"i", "d">>) THEN (IF SomeAny(a) THEN AnyOf("d") ELSE MkD(a[1][2] * a[2][2]))
             ELSE IF AllTags(a, <<"f", "d">>) THEN (IF SomeAny(a) THEN AnyOf("d") ELSE DurScale(a[2][2], a[1][2], a[1][3]))
             ELSE IF AllTags(a, <<"s", "d">>)
@@ -385,7 +388,10 @@ ErrStateOK(pre, max, got) == \A b \in DOMAIN pre : FSBetween(pre[b], max[b], got
 (* the set of such states (for the trace specification) *)
 ErrStates(pre, max) ==
     LET per(b) == { [c |-> c, sp |-> sp, sg |-> sg] : c \in pre[b].c..max[b].c, sp \in {pre[b].sp, max[b].sp}, sg \in {pre[b].sg, max[b].sg} }
-    IN { f \in [DOMAIN pre -> UNION { per(b) : b \in DOMAIN pre }] : \A b \in DOMAIN pre : f[b] \in per(b) }
+        ch == { b \in DOMAIN pre : pre[b] # max[b] }           \* only the buckets the evaluation could touch vary
+    IN IF ch = {} THEN {pre}
+       ELSE { [b \in DOMAIN pre |-> IF b \in ch THEN g[b] ELSE pre[b]] :
+                g \in { h \in [ch -> UNION { per(b) : b \in ch }] : \A b \in ch : h[b] \in per(b) } }
 
 (* buckets of function state an AST needs: <<>> for the expression, path \o <<0>> for a nested lambda at path *)
 RECURSIVE LambdaPaths(_, _)
@@ -499,5 +505,19 @@ OutcomeAgrees0(mode, got, v) ==
       [] OTHER ->
             IF ~IsErr(v) /\ Tag(v) # ModeTag[mode] THEN IsErr(got) ELSE ValueAgrees(got, v)
 (* ill = the expression does not type-check strictly under this scope (TypeStrict = "err") *)
-OutcomeAgrees(mode, got, v, ill) == OutcomeAgrees0(mode, got, v) \/ (ill /\ mode # "T" /\ IsErr(got))
+(* A typed call made without asking Type first skips the signature check of the built-ins (the    *)
+(* functions themselves accept some argument lists their signatures do not list, e.g.               *)
+(* duration(1s, x), int(1s)): for an ill-typed expression with a call its outcome is not decided     *)
+(* beyond the requested type.                                                                         *)
+RECURSIVE HasCall(_)
+HasCall(n) ==
+    CASE n[1] \in {"L", "R"} -> FALSE
+      [] n[1] = "U" -> HasCall(n[3])
+      [] n[1] = "X" -> HasCall(n[2])
+      [] n[1] = "B" -> HasCall(n[3]) \/ HasCall(n[4])
+      [] n[1] = "F" -> TRUE
+OutcomeAgrees(mode, got, v, ill, hasCall) ==
+    \/ OutcomeAgrees0(mode, got, v)
+    \/ ill /\ mode # "T" /\ IsErr(got)
+    \/ ill /\ hasCall /\ mode \in {"I", "F", "S", "B", "D"} /\ Tag(got) = ModeTag[mode]
 =============================================================================
